@@ -847,7 +847,23 @@ class ODLEncoder(PVLEncoder):
         elif self.is_symbol(value):
             return "'" + value + "'"
         else:
-            return super().encode_string(value)
+            return self.no_multiline_symbol(super().encode_string(value))
+
+    def no_multiline_symbol(self, quoted: str) -> str:
+        """Returns *quoted* unless it is between apostrophes and holds
+        a format effector: what is between apostrophes is an ODL Symbol
+        String, which must stay on one line (a Text String may span
+        lines, but cannot hold the double quote that forced the
+        apostrophes).
+        """
+        if quoted.startswith("'") and any(
+            c in quoted for c in self.grammar.format_effectors
+        ):
+            raise ValueError(
+                "ODL has no notation for a string with a double quote "
+                f"and a line break in it: {quoted!r}"
+            )
+        return quoted
 
     def encode_time(self, value: datetime.time) -> str:
         """Extends parent function since ODL allows a time zone offset
@@ -1188,7 +1204,9 @@ class PDSLabelEncoder(ODLEncoder):
         elif self.is_symbol(value) and self.symbol_single_quote:
             return "'" + value + "'"
         else:
-            return super(ODLEncoder, self).encode_string(value)
+            return self.no_multiline_symbol(
+                super(ODLEncoder, self).encode_string(value)
+            )
 
     def encode_time(self, value: datetime.time) -> str:
         """Overrides parent's encode_time() function because
